@@ -112,25 +112,13 @@ theorem lexOne_ext_identC {s : List Char} {i : Ident} {d : Char} (rest : List Ch
     (h : lexOne E s = some (.ident i, [])) (hD : Delim E d) (hi : isIdentStart E d = false)
     (hnot : E.isSpace d = true → scanNot E (s ++ d :: rest) = none) :
     lexOne E (s ++ d :: rest) = some (.ident i, d :: rest) := by
-  have hsrc : scanIdent E s = some (i, []) := lexOne_src h
+  have hsrc : Src E s [] (.ident i) := lexOne_src h
   cases s with
-  | nil => simp [scanIdent] at hsrc
+  | nil => rw [lexOne_nil0] at h; cases h
   | cons c s0 =>
-    obtain ⟨hstart, htail⟩ := scanIdent_inv hsrc
-    have hl := isIdentStart_imp c hstart
+    have hl := src_ident_letter hsrc
     obtain ⟨hdg, hsp, hq, hp, hm⟩ := letter_imp c hl
-    have hg : kw E "geography'".toList (c :: s0) = none := by
-      cases hk : kw E "geography'".toList (c :: s0) with
-      | none => rfl
-      | some y =>
-        obtain ⟨x, hx, hxq⟩ := kw_mem _ _ y.1 y.2 hk '\'' (by decide)
-        have hxe : x = '\'' := by simpa [ciChar, isAsciiLower] using hxq
-        subst hxe
-        rcases List.mem_cons.1 hx with hx | hx
-        · exact absurd hx.symm hq
-        · rcases htail _ hx with hw | hw
-          · exact absurd hw (by decide +kernel)
-          · exact absurd hw (by decide)
+    have hg := src_ident_geo hsrc
     refine lexOne_ext_other word_dot hD hi (Or.inr (letter_ranges hl)) hq hg hsp ?_ (by simp) h
     intro hn
     cases hds : E.isSpace d with
